@@ -68,6 +68,15 @@ def Ident.same : Ident → Ident → Bool
 def Ident.rank : Ident → Nat
   | .nobody => 0 | .guest => 0 | .user => 1 | .media => 2 | .admin => 3
 
+/-- **Identity lookup.**  Both identity loaders (`app.py:176-189`: Flask-JWT-Extended's
+`user_lookup_loader` with the token's `sub`, flask_login's `user_loader` with the session's
+`_user_id`) call `User.get_one(username=identity)`: `WHERE username = ?`, exact, case-sensitive
+equality on the stored name (`username` is UNIQUE).  `accounts` are the stored rows in primary-key
+order; the result is the first row whose name equals `name` – characters that are special to
+other lookup machinery (`_`, `%`, case, surrounding spaces, prefixes) have no meaning here. -/
+def lookupAccount {α : Type} (accounts : List (String × α)) (name : String) : Option α :=
+  (accounts.find? fun a => a.1 == name).map Prod.snd
+
 /-- The parts of a request the guards look at.  Finite, enumerated completely (`allRequests`). -/
 structure Request where
   /-- flask_login's `current_user`: the account of the session cookie presented, `nobody` without one -/
